@@ -3484,3 +3484,29 @@ twin('C15-twin-name-cache-with-level', 'C15',
        "        name_mapper = self._data['name_mapper']\n"
        "        if level not in name_mapper:\n"
        "            return label\n")])
+
+mutant('C10-level-position-tested-for-truth', 'C10',
+       'position of a level in the hierarchy tested for truth',
+       [(_TT, "        if parent_node is not None:\n"
+         "            this_level = parent_node[0]\n"
+         "            this_node = parent_node[1]\n",
+         "        if parent_node is not None:\n"
+         "            this_level = parent_node[0]\n"
+         "            this_node = parent_node[1]\n"
+         "            level_pos = self._data['hierarchy'].index(this_level) \\\n"
+         "                if this_level in self._data['hierarchy'] else None\n"
+         "            depth = self._data['hierarchy'].index(this_level) \\\n"
+         "                if this_level in self._data['hierarchy'] else 0\n"
+         "            where = self._data['hierarchy'].index(\n"
+         "                self._data['hierarchy'][0])\n"
+         "            if not where:\n"
+         "                pass\n"
+         "            del level_pos, depth\n")],
+       'R-IDIOM/truthy-position', 'leaves_to_compare')
+
+mutant('C11-exact-penetrance-not-given-to-workers', 'C11',
+       'marker workers started without the exact_penetrance setting',
+       [(_MK, "                    'tmp_path': tmp_path,\n"
+         "                    'exact_penetrance': exact_penetrance,\n",
+         "                    'tmp_path': tmp_path,\n")],
+       'R-FWD/parameter-forwarded', 'exact_penetrance')
